@@ -71,7 +71,25 @@ type C16Req struct {
 	Fetch  bool `json:"fetch"`
 	// "" = search.Ingestor.Search directly; "export" = through the gRPC layer of proxyapi (Export: a stream of
 	// documents whose response type has no way to say "partial")
-	Via string `json:"via,omitempty"`
+	// "grpc" = through the Search handler of proxyapi, whose own deadline (TimeoutMs of simulated time) may pass
+	// while stores are still working on the request
+	Via       string `json:"via,omitempty"`
+	TimeoutMs int    `json:"timeout_ms,omitempty"`
+}
+
+// protoDocs iterates the documents of a Search response.
+type protoDocs struct {
+	docs []*seqproxyapi.Document
+	i    int
+}
+
+func (s *protoDocs) Next() (search.StreamingDoc, error) {
+	if s.i >= len(s.docs) {
+		return search.StreamingDoc{}, io.EOF
+	}
+	d := s.docs[s.i]
+	s.i++
+	return search.StreamingDoc{Data: d.GetData()}, nil
 }
 
 // recIngestor hands the gRPC layer the real ingestor and keeps what it answered.
@@ -529,6 +547,48 @@ func (r *c16Runner) script() {
 				r.check(qi, rq, hot, cold, rec.qpr, &sentDocs{docs: stream.sent}, rec.err)
 				return
 			}
+			if rq.Via == "grpc" {
+				rec := &recIngestor{Ingestor: ing}
+				api := proxyapi.VerifNewGrpcV1(proxyapi.APIConfig{SearchTimeout: time.Duration(rq.TimeoutMs) * time.Millisecond, ExportTimeout: time.Minute}, rec, nil)
+				porder := seqproxyapi.Order_ORDER_DESC
+				if !rq.Desc {
+					porder = seqproxyapi.Order_ORDER_ASC
+				}
+				t0 := time.Now()
+				resp, gerr := api.Search(ctx, &seqproxyapi.SearchRequest{Query: &seqproxyapi.SearchQuery{Query: "k0:a", From: timestamppb.New(time.UnixMilli(0)), To: timestamppb.New(time.UnixMilli(4102444800000))},
+					Size: int64(rq.Size), Offset: int64(rq.Offset), WithTotal: true, Order: porder})
+				late := time.Since(t0) >= time.Duration(rq.TimeoutMs)*time.Millisecond
+				r.res.Probes["grpc_search_requests"]++
+				if late {
+					r.res.Probes["grpc_search_deadline_passed"]++
+				}
+				r.logf("request %d via grpc Search (timeout %d ms, deadline passed: %v) -> %v, code %v partial %v (ingestor said: %v)", qi, rq.TimeoutMs, late, gerr, resp.GetError().GetCode(), resp.GetPartialResponse(), rec.err)
+				if gerr != nil || rec.qpr == nil {
+					return // an error is always an honest outcome
+				}
+				var perr error
+				switch resp.GetError().GetCode() {
+				case seqproxyapi.ErrorCode_ERROR_CODE_NO:
+				case seqproxyapi.ErrorCode_ERROR_CODE_PARTIAL_RESPONSE:
+					perr = consts.ErrPartialResponse
+				default:
+					return
+				}
+				if (perr != nil) != resp.GetPartialResponse() {
+					r.violate("partial_flag", "request %d: error code %v but partial_response=%v", qi, resp.GetError().GetCode(), resp.GetPartialResponse())
+					return
+				}
+				if late {
+					// the handler's deadline cut the fetch stage: documents it did not wait for come back empty
+					for _, id := range rec.qpr.IDs {
+						if _, ok := r.excused[id.ID]; !ok {
+							r.excused[id.ID] = "the handler's deadline passed"
+						}
+					}
+				}
+				r.check(qi, rq, hot, cold, rec.qpr, &protoDocs{docs: resp.GetDocs()}, perr)
+				return
+			}
 			qpr, docs, _, err := ing.Search(ctx, req, querytracer.New(false, ""))
 			r.check(qi, rq, hot, cold, qpr, docs, err)
 		}()
@@ -801,6 +861,9 @@ func GenC16(seed uint64, thorough bool) *C16Case {
 		rq := C16Req{Offset: []int{0, 0, 0, 2, 5}[r.Intn(5)], Size: []int{1, 3, 10, 100}[r.Intn(4)], Desc: r.Bool(0.6), Fetch: r.Bool(0.7)}
 		if r.Bool(0.15) {
 			rq.Via, rq.Desc, rq.Fetch = "export", true, true // Export has no order parameter and always fetches
+		} else if rg := verifsim.NewSplitMix(seed ^ uint64(i+1)*0x6a09).Split("c16-grpc"); rg.Bool(0.15) {
+			// the Search handler with its own deadline: some stores will still be working when it passes
+			rq.Via, rq.Fetch, rq.TimeoutMs = "grpc", true, []int{10, 25, 40, 70, 60000}[rg.Intn(5)]
 		}
 		c.Requests = append(c.Requests, rq)
 	}
